@@ -689,6 +689,24 @@ def posts_text(n):
     return "\n".join(lines) + "\n"
 
 
+def gen_hub(rng, n):
+    """n pin-ended members from fixed feet on a circle-like polygon to one free hub, each bringing a force to the hub:
+    the hub's two equations collect a term from every member"""
+    s = Structure()
+    std_mat_sec(s)
+    s.nodes["hub"] = (Fr(0), Fr(0), (False, False, False))
+    dirs = [(3, 4), (4, 3), (5, 12), (12, 5), (8, 15), (15, 8), (7, 24), (24, 7), (20, 21), (21, 20), (1, 0), (0, 1)]
+    for k in range(n):
+        a, b = dirs[k % len(dirs)]
+        sx, sy = [(1, 1), (-1, 1), (-1, -1), (1, -1)][(k // len(dirs)) % 4]
+        r = Fr(10 + k // (4 * len(dirs)))
+        s.nodes["f%d" % k] = (sx * a * r, sy * b * r, (True, True, False))
+        s.bars.append({"id": "m%d" % k, "n1": "f%d" % k, "l1": LINKS["pin"], "n2": "hub", "l2": LINKS["pin"], "mat": "steel", "sec": "ipe"})
+        s.loads.append({"kind": "c", "term": "fy" if k % 2 else "fx", "local": False, "bar": "m%d" % k, "t": Fr(1), "v": Fr(-10 - k % 5)})
+    s.meta = {"kind": "hub/%d" % n}
+    return s
+
+
 def gen_solvable(rng):
     s = _gen_solvable(rng)
     # loads applied exactly on bar ends (they go to the joint / the support): forces and moments,
